@@ -66,6 +66,8 @@ impl OperationControl for ReluctantFixed {
         matcher: &'a ReMatcher,
         position: usize,
     ) -> Box<dyn Iterator<Item = usize> + 'a> {
+        #[cfg(regexml_verif)]
+        crate::verif::tick();
         Box::new(ReluctantFixedIterator::new(
             self.operation.as_ref(),
             matcher,
@@ -134,10 +136,14 @@ impl Iterator for ReluctantFixedIterator<'_> {
     type Item = usize;
 
     fn next(&mut self) -> Option<Self::Item> {
+        #[cfg(regexml_verif)]
+        crate::verif::tick();
         if !self.started {
             self.started = true;
 
             while self.count < self.min {
+                #[cfg(regexml_verif)]
+                crate::verif::tick();
                 let mut it = self.op.matches_iter(self.matcher, self.pos);
                 if let Some(next) = it.next() {
                     self.count += 1;
